@@ -141,16 +141,16 @@ Variables (tw : Z -> F) (NFFT : nat).
 Context {T : Twiddle NFFT tw}.
 Hypothesis Hpos : (0 < NFFT)%nat.
 
-Theorem eigen_resolves_rank_thm meth crit amin (x : list F) (P K : nat) (A z : nat -> F) (bin : nat -> Z)
+Theorem eigen_resolves_rank_thm meth eps crit amin (x : list F) (P K : nat) (A z : nat -> F) (bin : nat -> Z)
         (S : list F) (Vh : list (list F)) psd ev :
   (forall n, (n < length x)%nat -> nthF x n = expsig K A z n) ->
   (forall i, (i < K)%nat -> z i = tw (- bin i)%Z) ->
   (K <= np_of (length x) P)%nat -> distinct K z -> (forall i, (i < K)%nat -> A i <> 0) ->
   svd_spec (fb_matrix x P) (2 * np_of (length x) P) P S Vh ->
-  eigen meth (Some (NInt (Z.of_nat K))) None crit amin tw NFFT x P S Vh = inr (psd, ev) ->
+  eigen meth eps (Some (NInt (Z.of_nat K))) None crit amin tw NFFT x P S Vh = inr (psd, ev) ->
   ev = S /\ length psd = NFFT /\ (K < P)%nat /\ (forall I, (K <= I)%nat -> (I < P)%nat -> nthF S I = 0) /\
   forall i j (c : Z), (i < K)%nat -> (j < NFFT)%nat -> centerdc_bin NFFT j = (bin i + c * Z.of_nat NFFT)%Z ->
-    nthF psd j = 1 / dform meth tw P S Vh K (centerdc_bin NFFT j) /\ dform meth tw P S Vh K (centerdc_bin NFFT j) = 0.
+    nthF psd j = 1 / dform meth eps tw P S Vh K (centerdc_bin NFFT j) /\ dform meth eps tw P S Vh K (centerdc_bin NFFT j) = 0.
 Proof.
   intros Hx Hgrid HK Hd HA Hs He.
   assert (Hu : forall i, (i < K)%nat -> z i * conj (z i) = 1).
@@ -160,7 +160,7 @@ Proof.
     destruct (signal_space_choice_thm _ _ _ _ _ _ _ _ _ _ E) as (_ & _ & _ & Hc). cbn [choice_spec] in Hc.
     destruct Hc as (z0 & Hz0 & Hr & _). injection Hz0 as <-. lia. }
   pose proof (noiseless_rank_thm x P K A z S Vh Hx Hu Hs) as Hzero.
-  destruct (eigen_resolves_thm tw NFFT Hpos meth crit amin x P K A z bin S Vh psd ev Hx Hgrid HK Hd HA Hs (Hzero K ltac:(lia) HKP) He)
+  destruct (eigen_resolves_thm tw NFFT Hpos meth eps crit amin x P K A z bin S Vh psd ev Hx Hgrid HK Hd HA Hs (Hzero K ltac:(lia) HKP) He)
     as (H1 & H2 & H3 & H4).
   split; [exact H1|]. split; [exact H2|]. split; [exact H3|]. split; [exact Hzero|exact H4].
 Qed.
